@@ -35,6 +35,7 @@ import (
 	"github.com/uber/kraken/localdb"
 	"github.com/uber/kraken/utils/log"
 
+	"verif/internal/memscratch"
 	"verif/internal/pbt"
 )
 
@@ -43,41 +44,9 @@ func init() {
 	stdlog.SetOutput(io.Discard) // goose reports migrations through the std logger
 }
 
-// scratchBase picks the parent of the per-case database directory. sqlite fsyncs
-// on every statement; on the disk behind TMPDIR that costs 0.4 s per case and is
-// irrelevant to the property (process-crash model, not power loss), so a memory
-// file system is preferred when there is one. Each case removes its directory;
-// TestMain sweeps leftovers of killed runs.
-var scratchOnce sync.Once
-var scratchDir string
-
-func scratchBase() string {
-	scratchOnce.Do(func() {
-		if b := os.Getenv("VERIF_C30_SCRATCH"); b != "" {
-			scratchDir = b
-			return
-		}
-		const shm = "/dev/shm"
-		if st, err := os.Stat(shm); err == nil && st.IsDir() {
-			old, _ := filepath.Glob(filepath.Join(shm, "verif-c30-*"))
-			for _, o := range old {
-				if st, err := os.Stat(o); err == nil && time.Since(st.ModTime()) > 2*time.Hour {
-					os.RemoveAll(o)
-				}
-			}
-			if d, err := os.MkdirTemp(shm, "verif-c30-"); err == nil {
-				scratchDir = d
-			}
-		}
-	})
-	return scratchDir
-}
-
 func TestMain(m *testing.M) {
 	code := m.Run()
-	if scratchDir != "" && strings.HasPrefix(scratchDir, "/dev/shm/verif-c30-") {
-		os.RemoveAll(scratchDir)
-	}
+	memscratch.Cleanup()
 	os.Exit(code)
 }
 
@@ -115,6 +84,10 @@ type Case struct {
 }
 
 const nKeys = 6
+
+// livenessBound is how long a healthy executor is given to drain the store at the
+// end of a case (typical: a few ms). A miss is re-run 3 times before it is reported.
+const livenessBound = 10 * time.Second
 
 func gen(t *rapid.T) Case {
 	c := Case{
@@ -574,8 +547,15 @@ func (h *harness) settled() (bool, string) {
 	if err != nil {
 		return false, err.Error()
 	}
+	have := map[key]bool{}
+	for _, r := range rows {
+		have[key{r.A, r.B}] = true
+	}
 	var left []string
 	for k := 0; k < nKeys; k++ {
+		if w.stored[k] && !have[keyOf(k)] {
+			w.fail("an accepted task left the persistent store without a successful execution\n  task %d missing from the table while waiting for quiescence (executions %d, successful %d); table: %v", k, w.execs[k], w.okExecs[k], rows)
+		}
 		if w.stored[k] {
 			left = append(left, fmt.Sprintf("task %d (executions %d, successful %d)", k, w.execs[k], w.okExecs[k]))
 		}
@@ -626,7 +606,7 @@ func runOnce(c Case) (out outcome) {
 	if len(c.Fails) < nKeys {
 		c.Fails = append(append([]int{}, c.Fails...), make([]int, nKeys-len(c.Fails))...)
 	}
-	dir, err := os.MkdirTemp(scratchBase(), "c30-")
+	dir, err := os.MkdirTemp(memscratch.Base("c30"), "c30-")
 	if err != nil {
 		out.infra = err.Error()
 		return
@@ -761,7 +741,7 @@ func runOnce(c Case) (out outcome) {
 	w.outage = false
 	w.releaseAllLocked()
 	w.mu.Unlock()
-	ok, why := h.waitSettled(20 * time.Second)
+	ok, why := h.waitSettled(livenessBound)
 	if v := h.violated(); v != "" {
 		out.violation = v
 		return
@@ -820,7 +800,7 @@ func run(c Case) pbt.Verdict {
 			return v
 		}
 	}
-	return pbt.Fail("accepted tasks are not executed to success although the executor is healthy (3 runs, 20 s each)\n  %s", last.liveness)
+	return pbt.Fail("accepted tasks are not executed to success although the executor is healthy (3 runs, 10 s each)\n  %s", last.liveness)
 }
 
 func firstWords(s string) string {
@@ -840,7 +820,7 @@ func TestProp(t *testing.T) {
 			"non-trivial = some task succeeded after at least one failed execution AND (a queue overflow was marked failed OR a restart happened while tasks were stored); distinct by case hash",
 		Assumptions: []string{
 			"process death is simulated at store-call granularity: the dead manager's store calls and executions are cut off atomically; sqlite statement atomicity is trusted",
-			"liveness is bounded: 20 s of healthy executor without reaching an empty store, reproduced 3 times, counts as never",
+			"liveness is bounded: 10 s of healthy executor without reaching an empty store, reproduced 3 times, counts as never",
 			"tag-replication store is opened with a validator accepting every remote (invalid-remote purge is a documented deletion path outside the property)",
 		},
 		Parts: []pbt.Part{pbt.NewPart("history", 1, gen, run)},
